@@ -29,8 +29,18 @@ pub fn pow25(r: &mut Rng) -> i128 {
 
 /// class-biased coefficient, |c| <= 2^127-1
 pub fn coeff(r: &mut Rng) -> i128 {
-    let c: i128 = match r.below(18) {
+    let c: i128 = match r.below(20) {
         16 | 17 => pow25(r),
+        18 => {
+            // a special value (0, 1, small, 10^k) plus a multiple of 2^64: aliases it in the low word (64-bit fast paths)
+            let base = match r.below(4) { 0 => 0, 1 => 1, 2 => r.below(1000) as i128, _ => p10(r.below(19) as u32) };
+            let hi = match r.below(3) { 0 => 1, 1 => 1 + r.below(8) as i128, _ => (r.next() >> (2 + r.below(60))) as i128 };
+            (hi << 64).saturating_add(base).min(MAXC)
+        }
+        19 => {
+            // magnitude around the signed/unsigned 64-bit boundary
+            (1_i128 << (63 + r.below(2))) + r.range(-2, 2) as i128 + if r.bool() { 0 } else { (r.next() >> 1) as i128 }
+        }
         0 => 0,
         1 => r.range(-3, 3) as i128,
         2 => r.below(200) as i128,
